@@ -266,6 +266,7 @@ func (w *vWriteRun) pushBlock(ext []int64, dropped int) bool {
 	w.blockNo++
 	sent := append([]int64(nil), ext...) // the block gets its own copy: the expectation must not follow what the code does to the list
 	recs, err := f.push(blen, sent, dropped)
+
 	if err != nil {
 		c.Violate("c06:process-error", "ProcessSegments error: %v (history %v)", err, w.hist)
 		return false
@@ -1025,6 +1026,7 @@ func vRunWriteHistory(c *vCase, prop string) {
 				// leave what goes into the run's files alone
 				if f, err := os.CreateTemp(c.Dir, "raw_*_inprogress.npz"); err == nil {
 					if w.f.ds.ArchiveDataBlock(vPick(r, 1, 3*w.nsamp, 20*w.nsamp), f, f.Name()+".npz") == nil {
+						w.f.ds.archiveBlock.earliestTime = time.Time{} // the feed's blocks carry synthetic (2023) time stamps: they all count as "after the request"
 						c.Cov("raw_data_requests_during_a_run", 1)
 					} else {
 						f.Close()
